@@ -101,13 +101,18 @@ def program_for(bp, decl, seed, horizon=HORIZON, with_ic=None):
         for x in d['extra']:
             prog.append({'op': 'AddVariable', 'sector': ref(s), 'name': x, 'desc': 'extra demand', 'eqn': '0.0'})
         if d['aw']:
+            w = params[s]['wgt'] / len(d['aw'])
             prog.append({'op': 'AssetWeighting', 'sector': ref(s),
-                         'weights': [['DEP', '%0.2f' % params[s]['wgt']]], 'residual': 'MON'})
+                         'weights': [[a, '%0.3f' % (w * (1 + 0.5 * i))] for i, a in enumerate(d['aw'])], 'residual': 'MON'})
         if d['gift']:
             # the name of the sector's own lagged wealth is requested before full codes exist: a placeholder
             # embedded in a sector equation (C05)
             prog.append({'op': 'AddVariable', 'sector': ref(s), 'name': 'GIFT', 'desc': 'gift',
                          'eqn': '%0.2f*{%s:LAG_F}' % (params[s]['gift'], ref(s))})
+            # a product of two names requested before main(), added as a (non-blob) term
+            prog.append({'op': 'AddVariable', 'sector': ref(s), 'name': 'XTRA', 'desc': 'decorative product', 'eqn': ''})
+            prog.append({'op': 'AddTerm', 'sector': ref(s), 'name': 'XTRA',
+                         'term': '{%s:LAG_F}*{%s:AlphaFin}' % (ref(s), ref(s))})
         if k == 'CentralBank' and d['tre'] and not d['trector']:
             pending_tre.append(s)
         for cb in list(pending_tre):
@@ -154,6 +159,18 @@ def program_for(bp, decl, seed, horizon=HORIZON, with_ic=None):
     return prog
 
 
+_BAD_MARKET = {'market': '?', 'n_demanders': 0, 'n_suppliers': 0, 'demand_aggregates': [False], 'clears': [False],
+               'allocation_sums': [False], 'demander_booked': False, 'supplier_matches': [False], 'supplier_booked': False}
+
+
+def _safe(fn, fallback, info, what):
+    try:
+        return fn()
+    except Exception as e:  # noqa
+        info.setdefault('projection_errors', {})[what] = '%s: %s' % (type(e).__name__, e)
+        return fallback
+
+
 def _mono_list(p):
     out = []
     for m, c in sorted(p.items()):
@@ -198,26 +215,33 @@ def observe(bp, decl, seed, horizon=HORIZON, with_ic=None):
         cl = mp.closure(b)
         meaning_bad = mp.meaning_preserved(b, seed=seed)
         if decided:
-            sfc, sfc_detail = mp.sfc_by_zone(b)
-            mk = mp.markets(b)
-            am = mp.asset_markets(b)
-            pf = mp.portfolios(b)
-            rows_bad = mp.ledger_rows(b)
+            # a projection that the code under test makes impossible (missing variable, missing series) counts
+            # against the clauses it feeds; it is never a reason to stop the check
+            sfc, sfc_detail = _safe(lambda: mp.sfc_by_zone(b), ({'?': [False]}, {'?': ['unobservable']}), info, 'sfc')
+            mk = _safe(lambda: mp.markets(b), [dict(_BAD_MARKET)], info, 'markets')
+            am = _safe(lambda: mp.asset_markets(b), [{'market': '?', 'n_holders': 0, 'n_issuers': 0, 'demand_aggregates': [False],
+                                                     'clears': [False], 'issuer_supplies': [False]}], info, 'assetmarkets')
+            pf = _safe(lambda: mp.portfolios(b), [{'sector': '?', 'assets': [], 'adds_up': [False]}], info, 'portfolios')
+            rows_bad = _safe(lambda: mp.ledger_rows(b), ['unobservable'], info, 'ledger_rows')
         if decided and b.model.ExternalSector is not None:
-            numeraire, numflat, _ = mp.numeraire_value(b)
+            numeraire, numflat, _ = _safe(lambda: mp.numeraire_value(b), ([False], [False], []), info, 'numeraire')
             secs = bp['sectors']
-            flows = []
+            n_same = {}
+            cur = {c['code']: c['cur'] for c in bp['countries']}
             for f in bp['flows']:
                 s1, s2 = secs[f['src'] - 1], secs[f['dst'] - 1]
-                cur = {c['code']: c['cur'] for c in bp['countries']}
                 if cur[s1['cc']] != cur[s2['cc']]:
-                    flows.append((s1['cc'] + '.' + s1['code'], s2['cc'] + '.' + s2['code'], f['var']))
-            n_same = {}
-            for fl in flows:
-                n_same[fl] = n_same.get(fl, 0) + 1
-            for c in mp.cross_credit(b, sorted(n_same)):
-                want = n_same[tuple(c['flow'])]
-                credits.append({'ok': bool(c['rate_exact'] and c['credit_coef'] == str(want)), 'detail': json.dumps(c)})
+                    key = (s1['cc'] + '.' + s1['code'], s2['cc'] + '.' + s2['code'], f['var'])
+                    n_same[key] = n_same.get(key, 0) + 1
+            out_tot = {}
+            for f in bp['flows']:
+                s1 = secs[f['src'] - 1]
+                key = (s1['cc'] + '.' + s1['code'], f['var'])
+                out_tot[key] = out_tot.get(key, 0) + 1
+            for c in mp.cross_credit(b, [k + (v, out_tot[(k[0], k[2])]) for k, v in sorted(n_same.items())]):
+                credits.append({'ok': bool(c['ok']), 'detail': json.dumps(c)})
+                if not c['ok']:
+                    info.setdefault('credit_detail', []).append(c)
         n = len(bp['sectors'])
         ledgers = []
         vars_ = []
@@ -325,7 +349,7 @@ def judge(rep, prop, clause_prefixes, chosen, results):
         case = {'name': beh['name'], 'decl': beh['decl'], 'seed': rep.seed}
         for c in clauses:
             if any(c.startswith(p) for p in clause_prefixes):
-                detail = {k: info.get(k) for k in ('error', 'sfc_detail', 'closure', 'meaning_bad', 'rows_bad') if info.get(k)}
+                detail = {k: info.get(k) for k in ('error', 'sfc_detail', 'credit_detail', 'projection_errors', 'closure', 'meaning_bad', 'rows_bad') if info.get(k)}
                 rep.violate(c, '%s:%s' % (c, beh['name']), case, detail=json.dumps(detail, default=str)[:600])
             elif c.startswith('drift_'):
                 rep.add_drift(c, case)
